@@ -674,7 +674,7 @@ func (e *env) checkQueryWith(t failer, q mQuery, history func() string, placeOf 
 	} else {
 		classes = append(classes, "range>=2d")
 	}
-	for _, it := range q.Items {
+	for _, it := range q.operandItems() {
 		mm := e.mdl.Metrics[q.Metric]
 		typ := "unknown"
 		if mm != nil {
@@ -698,6 +698,15 @@ func (e *env) checkQueryWith(t failer, q mQuery, history func() string, placeOf 
 		classes = append(classes, "cond="+a.Op)
 	}
 	classes = append(classes, selectClasses(q)...)
+	classes = append(classes, exprClasses(q, exp)...)
+	for c := range e.mdl.notes {
+		classes = append(classes, c)
+	}
+	for _, it := range q.Items {
+		if it.ChainRegrouped {
+			classes = append(classes, "info:bare-chain-grouped-by-the-parser-unlike-the-usual-precedence")
+		}
+	}
 	wcls, repeated, proper := e.whereClasses(q)
 	classes = append(classes, wcls...)
 	if repeated && proper && len(got) > 0 {
@@ -763,7 +772,7 @@ func (e *env) riskFamilies(q mQuery) map[int64]bool {
 		return nil
 	}
 	wanted := map[string]bool{}
-	for _, it := range q.Items {
+	for _, it := range q.operandItems() {
 		wanted[it.Field] = true
 	}
 	start, end, _ := e.mdl.plan(q)
@@ -889,6 +898,8 @@ type schema struct {
 	Coarse  bool        `json:"coarse,omitempty"` // month-/year-type interval (TestQueryModelCoarseIntervals)
 	// Rich (TestQueryModelRichConditions, richcond_test.go): every statement has a generated and/or tree
 	// as its tag condition, drawn mostly from the metric's pool of atoms, and is executed twice.
+	// Expr (TestQueryModelExpressions, expr_test.go): every statement carries arithmetic expressions.
+	Expr      bool                  `json:"expr,omitempty"`
 	Rich      bool                  `json:"rich,omitempty"`
 	AtomPools map[string][]condNode `json:"atom_pools,omitempty"`
 }
@@ -1154,6 +1165,10 @@ func genQuery(t *rapid.T, sc schema, written map[string]map[string]bool) mQuery 
 	if len(q.Items) == 0 {
 		q.Items = []selectItem{{Field: md.Fields[0].Name}}
 	}
+	// arithmetic expressions (expr_test.go): every statement of the expression test, a fifth of the others
+	if !absent && !ev.Known(sigMultiFunc) && !ev.Known(sigOneFieldFile) && (sc.Expr || rapid.IntRange(0, 4).Draw(t, "exprItems") == 0) {
+		q.Items = addExprItems(t, md.Fields, q.Items, sc.Expr)
+	}
 	// tag condition: an and/or tree over a small pool of atoms (richcond_test.go), or the simple forms
 	var richRoot *condNode
 	var richFlat bool
@@ -1260,6 +1275,7 @@ func genQuery(t *rapid.T, sc schema, written map[string]map[string]bool) mQuery 
 	if richRoot != nil {
 		setRichWhere(t, &q, richRoot, richFlat)
 	}
+	setExprItems(t, &q)
 	return q
 }
 
@@ -1399,6 +1415,9 @@ func genOps(t *rapid.T, sc schema) []opSpec {
 
 // genRepeat: statements with a generated and/or tree are executed twice (always in the rich test, else half of them).
 func genRepeat(t *rapid.T, sc schema, q mQuery) bool {
+	if sc.Expr && q.hasExpr() {
+		return rapid.Bool().Draw(t, "repeat")
+	}
 	if q.Where == nil {
 		return false
 	}
@@ -1523,6 +1542,15 @@ func runHistory(t failer, sc schema, ops []opSpec) (classes []string, nonTrivial
 					seen[c] = true
 					classes = append(classes, c)
 				}
+			}
+			if sc.Expr { // non-trivial rule of TestQueryModelExpressions (classExprNT), on top of the rule of the package
+				has := false
+				for _, c := range cls {
+					if c == classExprNT {
+						has = true
+					}
+				}
+				nt = nt && has
 			}
 			if nt {
 				nonTrivial = true
